@@ -399,7 +399,12 @@ class Gen(object):
             self.emit(op, args, sh, mag, t=True, p=True, pos=pos)
             return True
         # register (op) constant, either side
-        if r < 0.8 or ra.sh == ():
+        if ra.sh == () and r > 0.75:
+            # a traced scalar against a constant vector: the result is broadcast up to the vector
+            k = rng.randint(2, 4)
+            c = const_array(rng, (k,))
+            sh = (k,)
+        elif r < 0.8 or ra.sh == ():
             c = const_scalar(rng)
             sh = ra.sh
         else:
